@@ -23,6 +23,8 @@ type c20Msg struct {
 	Retain  bool   `json:"retain"`
 	Dup     bool   `json:"dup"`
 	ID      int    `json:"id"`
+	// Spare: extra capacity behind the payload (a buffer re-used as buf[:n], also with n = 0)
+	Spare int `json:"spare,omitempty"`
 }
 
 type c20Handler struct {
@@ -37,7 +39,9 @@ type c20Case struct {
 }
 
 func (m c20Msg) message() *Message {
-	return &Message{Topic: m.Topic, Payload: append([]byte{}, m.Payload...), QoS: QoS(m.QoS), Retain: m.Retain, Dup: m.Dup, ID: uint16(m.ID)}
+	p := make([]byte, len(m.Payload), len(m.Payload)+m.Spare)
+	copy(p, m.Payload)
+	return &Message{Topic: m.Topic, Payload: p, QoS: QoS(m.QoS), Retain: m.Retain, Dup: m.Dup, ID: uint16(m.ID)}
 }
 
 func c20Snap(m *Message) c20Msg {
@@ -48,7 +52,7 @@ func c20Eq(a, b c20Msg) bool {
 	return a.Topic == b.Topic && bytes.Equal(a.Payload, b.Payload) && a.QoS == b.QoS && a.Retain == b.Retain && a.Dup == b.Dup && a.ID == b.ID
 }
 
-func c20Mutate(m *Message, how string) {
+func c20Mutate(m *Message, how string, salt int) {
 	switch how {
 	case "overwrite", "all":
 		for i := range m.Payload {
@@ -56,10 +60,10 @@ func c20Mutate(m *Message, how string) {
 		}
 		if how == "all" {
 			m.Topic, m.QoS, m.Retain, m.Dup, m.ID = "mutated/"+m.Topic, (m.QoS+1)%3, !m.Retain, !m.Dup, m.ID+1
-			m.Payload = append(m.Payload, 'Z')
+			m.Payload = append(m.Payload, 'Z', byte('a'+salt%26))
 		}
 	case "append":
-		m.Payload = append(m.Payload, "-appended"...)
+		m.Payload = append(m.Payload, fmt.Sprintf("-appended-by-%d", salt)...)
 	case "reslice":
 		if len(m.Payload) > 0 {
 			m.Payload[0] = 'R'
@@ -89,12 +93,16 @@ func c20Run(tb rapid.TB, c c20Case) {
 	var entries []c20Entry
 	var wg sync.WaitGroup
 	release := make(chan struct{})
+	rawDone := make(chan struct{}, 4096)
 	cur := 0
 	async := c.Mode != "mux"
 
 	mk := func(i int, h c20Handler) Handler {
 		return HandlerFunc(func(m *Message) {
-			if async {
+			if c.Mode == "async-rawmux" {
+				defer func() { rawDone <- struct{}{} }()
+				<-release
+			} else if async {
 				defer wg.Done()
 				<-release // run only after the dispatcher returned and the caller touched its message
 			}
@@ -104,7 +112,7 @@ func c20Run(tb rapid.TB, c c20Case) {
 			}
 			snap := c20Snap(m)
 			hold := m.Payload // keeps the array alive: a freed array's address could be handed out again and look "shared"
-			c20Mutate(m, h.Mut)
+			c20Mutate(m, h.Mut, i)
 			mu.Lock()
 			entries = append(entries, c20Entry{Handler: i, Msg: cur, Snap: snap, Ptr: ptr, kept: m, atExit: c20Snap(m), hold: hold})
 			mu.Unlock()
@@ -129,6 +137,15 @@ func c20Run(tb rapid.TB, c c20Case) {
 				mux.Serve(m)
 			})}
 		}
+	case "async-rawmux":
+		// the mux itself behind ServeAsync (no wrapper in between)
+		mux := &ServeMux{}
+		for i, h := range c.Handlers {
+			if err := mux.Handle(h.Filter, mk(i, h)); err != nil {
+				tb.Fatalf("harness: filter %q rejected: %v", h.Filter, err)
+			}
+		}
+		top = &ServeAsync{Handler: mux}
 	case "async":
 		top = &ServeAsync{Handler: mk(0, c.Handlers[0])}
 	case "mux-async":
@@ -169,11 +186,24 @@ func c20Run(tb rapid.TB, c c20Case) {
 			if !c20Eq(c20Snap(msg), orig) {
 				vFailf(tb, nil, "message %d: the caller's message changed during dispatch: %v -> %v", mi, orig, c20Snap(msg))
 			}
+			if full := callerHold[:cap(callerHold)]; !bytes.Equal(full[len(callerHold):], make([]byte, cap(callerHold)-len(callerHold))) {
+				vFailf(tb, nil, "message %d: a handler wrote into the spare capacity of the caller's payload buffer: % x", mi, full[len(callerHold):])
+			}
 		} else {
 			// the caller re-uses its message (as the client's reader may) before the handlers run
-			c20Mutate(msg, "all")
+			c20Mutate(msg, "all", 25)
 			close(release)
-			wg.Wait()
+			if c.Mode == "async-rawmux" {
+				for k := 0; k < n; k++ {
+					select {
+					case <-rawDone:
+					case <-time.After(10 * time.Second):
+						vFailf(tb, nil, "message %d: only %d of the %d handlers matching topic %q ran within 10 s (the dispatched message was %v)", mi, k, n, cm.Topic, orig)
+					}
+				}
+			} else {
+				wg.Wait()
+			}
 		}
 		mu.Lock()
 		got := append([]c20Entry{}, entries[before:]...)
@@ -232,12 +262,13 @@ func c20CountMatching(hs []c20Handler, topic string) int {
 }
 
 func c20Gen(rt *rapid.T) c20Case {
-	c := c20Case{Mode: rapid.SampledFrom([]string{"mux", "mux", "async", "async-mux", "mux-async"}).Draw(rt, "mode")}
+	c := c20Case{Mode: rapid.SampledFrom([]string{"mux", "mux", "async", "async-mux", "mux-async", "async-rawmux"}).Draw(rt, "mode")}
 	topics := []string{"a", "a/b", "b"}
 	c.Msgs = rapid.SliceOfN(rapid.Custom(func(rt *rapid.T) c20Msg {
 		return c20Msg{
 			Topic:   rapid.SampledFrom(topics).Draw(rt, "topic"),
 			Payload: rapid.SliceOfN(rapid.Byte(), 0, 64).Draw(rt, "payload"),
+			Spare:   rapid.SampledFrom([]int{0, 0, 1, 16, 64}).Draw(rt, "spare"),
 			QoS:     rapid.IntRange(0, 2).Draw(rt, "qos"),
 			Retain:  rapid.Bool().Draw(rt, "retain"),
 			Dup:     rapid.Bool().Draw(rt, "dup"),
